@@ -362,7 +362,13 @@ def coupled_worker(job):
     if pb.exc is not None:
         return finish_worker(job, exb, [], errors=["stand-alone run raised %r" % (pb.exc,)])
     hy = A + pa.facts + pb.facts + pa.path + pb.path + pa.defined + pb.defined + pa.lin
-    for lab, x, y in equiv.default_cells(pa.value, pb.value):
+    cells_ = list(equiv.default_cells(pa.value, pb.value))
+    # the last Newton system of the gas net in the coupled run == the one of the stand-alone run (the written value enters
+    # the results only through the right-hand side)
+    so, se = equiv.system_obligations(pa.systems[-1], pb.systems[-1], "gas net system")
+    errs += se
+    cells_ += so
+    for lab, x, y in cells_:
         if is_nan(x) or is_nan(y):
             D.STATS.obligations += 1
             if is_nan(x) and is_nan(y):
@@ -381,6 +387,129 @@ def coupled_worker(job):
             job.setdefault("_inconclusive", []).append(lab)
     exa.paths += exb.paths
     return finish_worker(job, exa, viol, errors=errs)
+
+
+def coupled_g2g_worker(job):
+    """two gas nets coupled by GasToGasConversion through the real run_control: the *target* net (which has no controller of
+    its own) holds the results of a stand-alone pipeflow with the written feed-in"""
+    import pandapipes as pp
+    from pandapipes.multinet.control.controller import multinet_control as mc
+    from pandapipes.multinet.control import run_control_multinet as rcm
+    patched, ass = H.install(numba_pyfunc=False)
+    viol = []
+    eta, h1, h2 = real("eta"), real("hhv1"), real("hhv2")
+    A = list(ass) + [eta.t > 0, h1.t > 0, h2.t > 0]
+    i1, i2 = job["idx_from"], job["idx_to"]
+
+    def sym_gas(gn, tag):
+        gn.fluid = stubs.make_sym_fluid(True)
+        for tbl, cols in (("junction", ["pn_bar", "tfluid_k"]), ("ext_grid", ["p_bar", "t_k"]),
+                          ("pipe", ["length_km", "inner_diameter_mm", "k_mm"]), ("sink", ["mdot_kg_per_s", "scaling"]),
+                          ("source", ["scaling"])):
+            for col in cols:
+                _symcol(gn[tbl], col, "%s.%s.%s" % (tag, tbl, col))
+        gn.source["mdot_kg_per_s"] = gn.source["mdot_kg_per_s"].astype(object)
+        H.objcol(gn.pipe, "outer_diameter_mm")
+
+    def fake_runpp(net, **kw):
+        net["converged"] = True
+
+    def run_multinet():
+        mn, pw, (g1, g2) = _multinet(2)
+        sym_gas(g1, "gas0")
+        sym_gas(g2, "gas1")
+        c = mc.GasToGasConversion(mn, i1, i2, eta, name_gas_net_from="gas0", name_gas_net_to="gas1")
+        c.gas1_calorific_value, c.gas2_calorific_value = h1, h2
+        cv = rcm.prepare_run_ctrl(mn, None)
+        cv["nets"]["power"]["run"] = fake_runpp
+        rcm.run_control(mn, ctrl_variables=cv, mode="hydraulics", use_numba=False)
+        return g2
+
+    def run_alone():
+        mn, pw, (g1, g2) = _multinet(2)
+        sym_gas(g2, "gas1")
+        g2.source.at[i2, "mdot_kg_per_s"] = real("gas0.sink.mdot_kg_per_s[%d]" % i1) * real("gas0.sink.scaling[%d]" % i1) * h1 / h2 * eta
+        pp.pipeflow(g2, mode="hydraulics", use_numba=False)
+        return g2
+
+    class W(H.Witness):
+        def __missing__(self, name):
+            try:
+                return super().__missing__(name)
+            except KeyError:
+                col = name.split("[")[0].split(".")[-1]
+                v = {"pn_bar": 30.0, "tfluid_k": 283.15, "p_bar": 30.0, "t_k": 283.15, "length_km": 1.5, "inner_diameter_mm": 300.0,
+                     "k_mm": 0.1, "mdot_kg_per_s": 0.12, "scaling": 1.0, "eta": 0.7, "hhv1": 11.0, "hhv2": 13.0}.get(col, 1.0)
+                self[name] = v
+                return v
+    H.CTX.fixed = set()
+    ex0 = H.explore_witnesses(run_alone, [W({}, kinds={"m": 0.8, "p": 28.0, "msl": -1.0})], A)
+    if ex0.paths[0].exc is not None:
+        return finish_worker(job, ex0, [], errors=["stand-alone run raised %r" % (ex0.paths[0].exc,)])
+    H.CTX.fixed = H.discover_fixed(ex0.paths[0].systems)
+    exa = H.explore_witnesses(run_multinet, [W({}, kinds={"m": 0.8, "p": 28.0, "msl": -1.0})], A)
+    pa = exa.paths[0]
+    if pa.exc is not None:
+        return finish_worker(job, exa, [], errors=["coupled run raised %r" % (pa.exc,)])
+    exb = H.explore_witnesses(run_alone, [W(dict(pa.witness), kinds={"m": 0.8, "p": 28.0, "msl": -1.0})], A)
+    pb = exb.paths[0]
+    if pb.exc is not None:
+        return finish_worker(job, exb, [], errors=["stand-alone run raised %r" % (pb.exc,)])
+    hy = A + pa.facts + pb.facts + pa.path + pb.path + pa.defined + pb.defined + pb.lin
+    cells_ = list(equiv.default_cells(pa.value, pb.value))
+    # the last Newton system assembled for the target net in the coupled run == the one of the stand-alone run
+    tgt = [s_ for s_ in pa.systems if any(n_.startswith("dxh") for n_ in s_.get("xnames", []))]
+    sys_b = pb.systems[-1]
+    kb_ = sorted(n_.split("[", 1)[1] for n_ in sys_b.get("xnames", []))
+    same_unknowns = [s_ for s_ in tgt if sorted(n_.split("[", 1)[1] for n_ in s_.get("xnames", [])) == kb_]
+    # both gas nets have the same structure here: the target net's system is the last one whose right-hand side contains
+    # symbols of the target net
+    from svx.sym import free_vars
+    mine = [s_ for s_ in same_unknowns if any(v.startswith("gas1.") for b_ in s_["b"] if isinstance(b_, Sym) for v in free_vars(b_.t))]
+    if not mine:
+        viol.append({"fingerprint": "C20/coupled_g2g/not_calculated", "detail": {"what": "no system was assembled for the target net"},
+                     "replay": {"kind": "coupled_g2g", "idx_from": i1, "idx_to": i2, "values": {}}})
+    else:
+        so, se = equiv.system_obligations(mine[-1], sys_b, "target net system")
+        cells_ += so
+    for lab, x, y in cells_:
+        if is_nan(x) or is_nan(y):
+            D.STATS.obligations += 1
+            if is_nan(x) and is_nan(y):
+                D.STATS.rewriter += 1
+                continue
+            r, m = 'sat', None
+        else:
+            r, m, how = D.check(hy, _t(x) == _t(y), sample="coupled g2g %s" % lab, timeout_ms=4000,
+                                witness=(pa.witness, H.witness_funcs()))
+        if r == 'sat':
+            viol.append({"fingerprint": "C20/coupled_g2g/%s" % lab.split("[")[0], "detail": {"what": lab},
+                         "replay": {"kind": "coupled_g2g", "idx_from": i1, "idx_to": i2, "values": {}}})
+            if len(viol) >= 3:
+                break
+        elif r == 'unknown':
+            job.setdefault("_inconclusive", []).append(lab)
+    exa.paths += exb.paths
+    return finish_worker(job, exa, viol)
+
+
+def replay_coupled_g2g(rs):
+    import pandapipes as pp
+    from pandapipes.multinet.control.controller import multinet_control as mc
+    from pandapipes.multinet.control import run_control_multinet as rcm
+    eta = 0.7
+    i1, i2 = rs["idx_from"], rs["idx_to"]
+    mn, pw, (g1, g2) = _multinet(2)
+    g1.sink["scaling"] = [0.5, 0.8, 1.5]
+    mc.GasToGasConversion(mn, i1, i2, eta, name_gas_net_from="gas0", name_gas_net_to="gas1")
+    rcm.run_control(mn)
+    mnb, pwb, (b1, b2) = _multinet(2)
+    hh1 = float(np.asarray(b1.fluid.get_property("hhv")).ravel()[0])
+    hh2 = float(np.asarray(b2.fluid.get_property("hhv")).ravel()[0])
+    b2.source.at[i2, "mdot_kg_per_s"] = g1.sink.at[i1, "mdot_kg_per_s"] * g1.sink.at[i1, "scaling"] * hh1 / hh2 * eta
+    pp.pipeflow(b2)
+    worst, where = equiv.max_result_gap(g2, b2)
+    return worst > 1e-6, {"worst": worst, "where": where}
 
 
 def replay_coupled(rs):
@@ -479,12 +608,15 @@ def jobs(tier, seed):
         out.append({"name": "roundtrip/%s" % trip, "kind": "roundtrip", "trip": trip})
     out.append({"name": "coupled/scalar", "kind": "coupled", "idx_p": 1, "idx_g": 2})
     out.append({"name": "coupled/vector", "kind": "coupled", "idx_p": [0, 2], "idx_g": [1, 2]})
+    out.append({"name": "coupled_g2g/scalar", "kind": "coupled_g2g", "idx_from": 1, "idx_to": 2})
     out.append({"name": "flag", "kind": "flag"})
     return out
 
 
-WORKERS = {"formula": formula_worker, "roundtrip": roundtrip_worker, "coupled": coupled_worker, "flag": flag_worker}
-REPLAYS = {"formula": replay_formula, "roundtrip": replay_roundtrip, "coupled": replay_coupled, "flag": replay_flag}
+WORKERS = {"formula": formula_worker, "roundtrip": roundtrip_worker, "coupled": coupled_worker, "flag": flag_worker,
+           "coupled_g2g": coupled_g2g_worker}
+REPLAYS = {"formula": replay_formula, "roundtrip": replay_roundtrip, "coupled": replay_coupled, "flag": replay_flag,
+           "coupled_g2g": replay_coupled_g2g}
 
 
 def worker(job):
